@@ -201,10 +201,21 @@ pub struct Sim {
 
 static SIM: OnceLock<&'static Sim> = OnceLock::new();
 
+static SUBSET: OnceLock<Vec<&'static str>> = OnceLock::new();
+
+/// Must be called before the first `sim()`: restrict the disk image to a few
+/// zones (Miri mode).
+pub fn use_subset(ids: Vec<&'static str>) {
+    let _ = SUBSET.set(ids);
+}
+
 pub fn sim() -> &'static Sim {
     SIM.get_or_init(|| {
         let s: &'static Sim = Box::leak(Box::new(Sim {
-            image: Image::load(),
+            image: match SUBSET.get() {
+                Some(ids) => Image::load_subset(ids),
+                None => Image::load(),
+            },
             holders: Mutex::new(BTreeMap::new()),
             st: Mutex::new(St {
                 active: false,
